@@ -1,5 +1,6 @@
 """C13 - compression and vector-to-MPS conversion (structural part)."""
 import ast
+from ..defuse import before as _before
 from ..legs import LegUnknown
 
 from ..loader import norm, AnalysisError
@@ -186,7 +187,7 @@ def from_vector_rules(chk, repo, rid):
     ok = len(lab) == 1 and b is not None and norm(lab[0].targets[0]) == f'{M}.qD[{b["__i"]} + 1]' and \
         ((f'len({S})' in labv and labline > (strunc[0].lineno if strunc else 10 ** 9)) or
          any(f'len({norm(c_.targets[0])})' in norm(lab[0].value) for c_ in ast.walk(fi.node) if isinstance(c_, ast.Assign) and
-             isinstance(c_.value, ast.Call) and norm(c_.value.func) == 'retained_bond_indices' and c_.lineno < lab[0].lineno))
+             isinstance(c_.value, ast.Call) and norm(c_.value.func) == 'retained_bond_indices' and _before(fi.node, c_, lab[0])))
     chk.ob(rid, where(repo, fi, lab[0] if lab else fi.node), 'from_vector: the label of bond i+1 has the length of the '
            'retained singular values (taken after the truncation)', ok, norm(lab[0]) if lab else '', key=f'{rid}|from_vector|label')
     # trailing scalar absorbed
